@@ -89,3 +89,64 @@ def shrink(prog, still_fails, budget=120):
             except Exception:
                 continue
     return cur
+
+
+def variants12(prog):
+    """smaller versions of a C12 program (dynmodel scenario-level AST)"""
+    for sec in ("behaviors", "monitors"):
+        for name, d in prog.get(sec, {}).items():
+            for b in _variants_block(d["body"]):
+                if not b:
+                    continue
+                p = copy.deepcopy(prog)
+                p[sec][name]["body"] = copy.deepcopy(b)
+                yield p
+    for name, d in prog["scenarios"].items():
+        su = d.get("setup", [])
+        for i in range(len(su)):
+            if su[i][0] == "agent" and name == "Main" and sum(1 for x in su if x[0] == "agent") == 1:
+                continue
+            p = copy.deepcopy(prog)
+            del p["scenarios"][name]["setup"][i]
+            yield p
+        if d.get("compose"):
+            for b in _variants_block(d["compose"]):
+                if not b:
+                    continue
+                p = copy.deepcopy(prog)
+                p["scenarios"][name]["compose"] = copy.deepcopy(b)
+                yield p
+            for i, st in enumerate(d["compose"]):
+                if st[0] in ("dosc", "doscfor", "doscuntil") and len(st[2]) > 1:
+                    for j in range(len(st[2])):
+                        p = copy.deepcopy(prog)
+                        p["scenarios"][name]["compose"][i][2] = st[2][:j] + st[2][j + 1 :]
+                        yield p
+                if st[0] in ("doscfor", "doscuntil"):
+                    p = copy.deepcopy(prog)
+                    p["scenarios"][name]["compose"][i] = ["dosc", st[1], st[2]]
+                    yield p
+    if prog["maxSteps"] > 2:
+        p = copy.deepcopy(prog)
+        p["maxSteps"] -= 1
+        yield p
+
+
+def shrink_with(prog, variants_fn, still_fails, budget=200):
+    cur = prog
+    n = 0
+    progress = True
+    while progress and n < budget:
+        progress = False
+        for v in variants_fn(cur):
+            n += 1
+            if n > budget:
+                break
+            try:
+                if still_fails(v):
+                    cur = v
+                    progress = True
+                    break
+            except Exception:
+                continue
+    return cur
